@@ -29,9 +29,13 @@ Lemma gen_chan_writable_spec : forall tot wc cwf,
   gen_chan_writable tot wc cwf = ((0 <? tot) || wc || cwf).
 Proof. unfold gen_chan_writable. pred_tac. Qed.
 
+(* the model flushes for either flush function (the outbuf lock is free during a
+   poll turn), so the interface is: does handle_write flush at all *)
+Definition flushes (k : flush_kind) : bool := match k with FlushNone => false | _ => true end.
+
 Lemma gen_hw_flush_spec : forall n tot sb,
-  gen_hw_flush n tot sb = if n =? 0 then FlushSome else if sb <=? tot then FlushIfLockable else FlushNone.
-Proof. unfold gen_hw_flush. pred_tac. Qed.
+  flushes (gen_hw_flush n tot sb) = ((n =? 0) || (sb <=? tot)).
+Proof. unfold gen_hw_flush, flushes. pred_tac. Qed.
 
 Lemma gen_hw_after_spec : forall cwf wc tot,
   gen_hw_after cwf wc tot = if cwf && (tot =? 0) then (false, true, true) else (cwf, wc, wc).
@@ -197,17 +201,15 @@ Lemma handle_write_spec : forall p now c,
   | Some c1 => if c_cwf c1 && (c_pend c1 =? 0) then None else if c_wc c1 then None else Some c1
   end.
 Proof.
-  intros. unfold handle_write, hw_flushes. rewrite gen_hw_flush_spec.
+  intros. unfold handle_write, hw_flushes. rewrite <- gen_hw_flush_spec.
   assert (T : forall c1, (let '(cwf', wc', closed) := gen_hw_after (c_cwf c1) (c_wc c1) (c_pend c1) in
                           if closed then None else Some (set_wc (set_cwf c1 cwf') wc'))
                          = if c_cwf c1 && (c_pend c1 =? 0) then None else if c_wc c1 then None else Some c1).
   { intros c1. rewrite gen_hw_after_spec. destruct (c_cwf c1 && (c_pend c1 =? 0)); [reflexivity|].
     destruct (c_wc c1) eqn:E; [reflexivity|]. rewrite <- E. rewrite set_flags_id. reflexivity. }
-  destruct (len_requests c =? 0); cbn [orb].
-  - destruct (flush_some true now c); [apply T|reflexivity].
-  - destruct (p_send_bytes p <=? c_pend c).
-    + destruct (flush_some true now c); [apply T|reflexivity].
-    + apply T.
+  destruct (gen_hw_flush (len_requests c) (c_pend c) (p_send_bytes p)); cbn [flushes];
+    try (destruct (flush_some true now c); [apply T|reflexivity]).
+  apply T.
 Qed.
 
 (* what _flush_some can change: the socket's room, pending output, last_activity *)
